@@ -92,7 +92,8 @@ def _to_dict_classes(ctx, mod, t: str, shape: str) -> Tuple[Set[str], int]:
     rep_atom = ("op", "is", ("sub", A(A(SELF, "_betterproto"), "default_gen"), FIELD_NAME), N("list"))
     none_atom = ("op", "is", VALUE, C(None))
     assume = {inc: True, none_atom: False, ("raises", ("AttributeError",), VALUE): False}
-    b: Dict[Sym, Any] = {}
+    # the transform applied to a value that is there: a field outside any oneof (a selected member takes the same route)
+    b: Dict[Sym, Any] = {A(META, "group"): None}
     if shape in ("singular", "repeated"):
         b.update(type_binding(t))
         assume[rep_atom] = shape == "repeated"
@@ -589,6 +590,8 @@ def rule_J5(ctx) -> None:
     for sname, t, binds, atoms in scenarios:
         b = dict(type_binding(t))
         b.update(binds)
+        # the scenarios are about fields outside any oneof (INCL is assumed False, and a set member would be the selected one)
+        b.setdefault(A(META, "group"), None)
         assume = dict(base)
         atoms = dict(atoms)
         zero = atoms.pop("$zero", None)
